@@ -95,6 +95,58 @@ CHECKS = {
    design="5/C02", technique="Lean 4 proof (NoPanic / Consumes / Suffix predicates by induction over the type universe and fuel) + differential correspondence with runtime observers",
    note="partial by nature: memory safety of the unsafe blocks (ArrayVec MaybeUninit, ByteSlice casts), real allocator behaviour and wall time are outside the model; "
         "Size::head/tail (info.rs) are exercised by the correspondence only"),
+ "C08": dict(
+   text="Lean theorem derive_encode_spec (full strength, no partial fallback): for EVERY abstract schema satisfying `accepted` (the macro's validity rules: unique "
+        "indices, transparent => one field, index_only => unit variants, tag/index_only and tag/transparent exclusive, skip alone, codec fits the type) and every "
+        "well-typed value, the model of the generated Encode impl (encTy: fields sorted by index, run-time __max_index777 / __max_fields777 with the is_nil the "
+        "macro selects, gap loops computed from the previous declared index, tags, encode_with, transparent forwarding, enum rows, index_only) writes exactly "
+        "encPref(specTy t v), where specTy is an independent transcription of the documented format (lib.rs 'CBOR encoding') into the RFC 8949 data model: array "
+        "position i = (tagged) field with index i or null, ending at the highest present index; map = present fields as (index, value) in ascending index order; "
+        "enum = [index, body] or the bare index. Unbounded in field count, index / tag size, nesting depth and value sizes (mutual structural induction over the "
+        "schema; frame lemma by cursor induction over the index-sorted pieces; sortedness / permutation lemmas). Also proved: names and the n/b choice never "
+        "influence the bytes at any depth (anonymize), declaration order of struct / variant fields never influences the bytes (sortP_perm_eq). "
+        "Correspondence: verifkit/derivegen.py draws ~900 type definitions per seed (fixed core family covering every value-affecting attribute + random grammar), "
+        "writes the crate harness/dgen (rebuilt against /repo on every run) and the same schemas in protocol syntax for mcdrv; every case is judged by bytes == "
+        "Lean spec == independent Python reference encoder, and the model must agree; a twin declaration of every schema (renamed, reordered, n<->b, other "
+        "attribute spelling) must produce the spec bytes of the original.",
+   design="5/C08", technique="Lean 4 proof (mutual structural induction over nested schema syntax, list permutation / sortedness lemmas) + generated-crate differential "
+        "correspondence with two independent reference encoders",
+   note="The proc-macro front end (syn parsing, attribute validation, bound / lifetime generation) is outside the model: the model starts from the abstract schema "
+        "the macro keeps after parsing; a generated definition the macro rejects shows up as a harness build failure. The field-type universe of the model is a "
+        "closed small one (integers, bool, text, byte strings, Option, Vec, nested derived types, with=minicbor::bytes, one nil-aware custom codec); generic "
+        "parameters are covered as their instantiations. A field tag inside a #[cbor(transparent)] struct is silently ignored by the macro (modelled and "
+        "specified as such)."),
+ "C09": dict(
+   text="Lean theorem derive_roundtrip (full for definite framing): for every accepted schema and well-typed value outside the documented Some(x)=null exclusion "
+        "(decidable predicate noClash), decTy t (encTy t v ++ rest) = ok (v with skipped fields defaulted) rest for ARBITRARY trailing bytes - the model of the "
+        "generated Decode impl (per-field Option slots initialised Some(None)/None, definite loops of both encodings, match on index, tag checks, nil() / "
+        "missing_value resolution, Default for skipped fields, unknown_var_err arms, enum wrapper + index dispatch, transparent) reads back what the generated "
+        "Encode impl wrote and stops exactly at its end. Error theorems: wrong tag -> tag mismatch (struct, enum); missing tag -> error; a declared mandatory "
+        "field with an empty body -> missing_value (+ resolve_missing: any unresolved mandatory slot); unknown top-level variant -> unknown_variant at the position "
+        "after the index. Borrowing: a decoded string / byte-string leaf is a contiguous slice of the input ending where the remaining input starts "
+        "(borrowed_leaf_is_input_slice); whether the Rust value keeps the slice or a copy is observed by pointer range in the harness. "
+        "Correspondence: the C08 corpus decoded from (i) its encoding, (ii) re-framings (all struct / variant / Vec containers indefinite, all heads widened), "
+        "(iii) top-level mutations (wrong / missing tag at four levels, dropped mandatory field, unknown variant), (iv) strict prefixes; oracle in the orchestrator "
+        "(value, position, borrow flags, error class) and equality with the model.",
+   design="5/C09", technique="Lean 4 proof (slot invariant over the decode loops, mutual structural induction) + generated-crate differential correspondence with in-orchestrator oracle",
+   note="partial: the theorems cover definite framing with preferred heads; indefinite / non-preferred framings are covered by the correspondence stream only, except "
+        "derive_enum_indefinite_wrapper_rejected (known finding K8: the generated enum decoder rejects an indefinite-length [index, body] wrapper, machine-checked). "
+        "`noClash` also demands that datatype() does not fail on the first byte of an encoding (always true for encodings; kept as a decidable hypothesis). "
+        "Front end outside the model as for C08."),
+ "C10": dict(
+   text="Executable specification in Lean (Compat.lean): compatTy (directional 'reader reads writer': shared fields by index with equal tag and compatible types, "
+        "unshared reader fields optional, writer-only fields arbitrary, enum variants may differ only where the enum is the declared type of an optional field, "
+        "unit <-> all-optional-fields variants), project (the value the documentation promises the reader) and benign (excludes K5). Machine-checked: the K5 "
+        "counterexample and the falsity of the unrestricted statement (compat_counterexample_K5, compat_decode_statement_false), benign's exclusion is tight "
+        "(k5_benign_excludes), F5 is repaired (compat_F5_repaired), the documented edits do NOT compose when a retired index is re-used with another type "
+        "(compat_not_transitive), a reader's mandatory field unknown to the writer is a missing_value error (compat_missing_mandatory). The inductive relation "
+        "CompatStep lists one constructor per documented edit. Correspondence: chains of versions produced by random sequences of the documented edits (any "
+        "nesting depth, both encodings, regular / index_only enums, tagged fields, nil-aware codec) x every ordered pair x every writer value: implementation == "
+        "Lean project (value, position) and == model; deviations are accepted only where the model's hazard classification says K5.",
+   design="5/C10", technique="Lean 4 executable specification + machine-checked counterexamples + generated-crate differential correspondence against the specification",
+   note="partial: the general theorem `compatible w r -> benign -> decTy r (encTy w v ++ rest) = ok (project w r v) rest` is stated (compat_decode_statement, with "
+        "the K5 counterexample) but not yet proved for all schemas; the round trip (w = r) is C09's theorem; everything else about C10 rests on the correspondence "
+        "(1.6k-10k pairs per run against `project`). Front end outside the model as for C08."),
  "C05": dict(
    text="Lean theorem int_accessor_exact: for every accessor type (u8..u64,i8..i64,Int), every sign, every head width and every argument that fits the width, "
         "the model accessor returns the mathematical value and stops right after the head iff the value is representable in the type, and an error otherwise "
@@ -141,6 +193,18 @@ CHECKS = {
         "(wider heads, indefinite containers, chunked strings), strict prefixes and byte mutations, judged by the property's oracle and compared with the model.",
    design="5/C18", technique="Lean 4 proof (mutual structural induction; compositional 'agree on success' relation over the decoder monad) + differential correspondence",
    note="serde's std impls for the shared types are modelled, not verified; Option directly inside Option is the properties' documented exclusion (Some(None) is null on both sides, they agree with each other)."),
+ "C13": dict(
+   text="Lean theorems about the sink model (Sink.lean: &mut [u8], Cursor<&mut [u8]>, Cursor<[u8;N]>, Cursor<Box<[u8]>>, Vec, Writer over a limited std::io::Write with std's "
+        "default write_all loop; the buffer lives inside a guarded memory and writes are raw blits at computed offsets, so staying inside the buffer is a consequence of the modelled "
+        "bounds checks), quantified over ALL chunk lists (= every value and every split of its encoding into Encoder::put calls) and all canary surroundings: encoding into a bounded "
+        "sink succeeds iff the total length is <= the capacity; success or failure, the memory afterwards is left canary ++ accepted ++ untouched rest of the buffer ++ right canary "
+        "with accepted = the whole encoding on success and a prefix of it on failure; all sinks that succeed hold the same bytes, those Vec collects; after any raw sequence of "
+        "write_all calls (continuing after failures) the position equals the number of bytes accepted and the per-call outcomes follow the fits-what-is-left rule; failure is a write "
+        "error, never a panic; exact-fit corollary. Correspondence: Encoder call chains and concrete typed values at every capacity 0..=len+1 in every sink kind with real canary "
+        "bytes, and exhaustive short raw write_all sequences, judged by an orchestrator-side oracle (own encoder / own replay) and compared with the model line by line.",
+   design="5/C13", technique="Lean 4 proof (layout invariant L++A++F++R, induction over the chunk list; fuel-bounded std write_all loop proved adequate) + differential correspondence with in-orchestrator oracle",
+   note="Box<[u8]> and Vec own their allocation, so no adjacent canary exists for them (safe-Rust bounds checks apply). Typed values reach the sinks through Encoder call chains and a "
+        "handful of concrete types; that every Encode impl is such a chain is C01/C07's subject. The std::io writer is the harness' Limited writer."),
 }
 
 def main():
